@@ -13,7 +13,7 @@
    Still partial by nature above the Buffer class: that rules, contexts, descriptors and module-level tables of the real
    Python process are untouched is established by the harness (snapshots, long-lived against fresh objects), see DESIGN.md. *)
 From Coq Require Import ZArith List Bool.
-From MS Require Import PyBase Buffer Bits ByteFacts BufferAbs BufferSpec Schc Effects BufferHeap BufferHeapSpec.
+From MS Require Import PyBase Buffer Bits ByteFacts BufferAbs BufferSpec Schc SchcBytes Effects BufferHeap BufferHeapSpec SchcHeap.
 Import ListNotations.
 Open Scope Z_scope.
 
@@ -66,6 +66,42 @@ Proof. vm_compute. reflexivity. Qed.
 Example c16_alias_ex : fst (hstep (HAdd 0%nat 0%nat) [mkbuf [160] 3 RIGHT 5]) = Ok (ORef 1%nat) /\ b_add (mkbuf [160] 3 RIGHT 5) (mkbuf [160] 3 RIGHT 5) = Ok (mkbuf [180] 6 RIGHT 2).
 Proof. vm_compute. split; reflexivity. Qed.
 
+(* ---- (I b) compress / decompress / matching / rule-id dispatch on the objects of the heap (SchcHeap.v: the functions of
+   compressor.py, decompressor.py (field stage), ruler.py, operators.py, actions/compression.py written over object references:
+   packet field values, payload, rule ids, target values, mapping keys and indices are objects the caller shares) --------------
+   For every heap, every input (in scope or not) and every outcome: no existing object changes (only new objects are appended);
+   the Buffer returned on success is a new object; and on in-scope inputs the outcome is the one the value-level functions of
+   SchcBytes.v give on the dereferenced inputs (which are the functions run raw against the code and proved to refine Schc.v). *)
+Theorem c16_compress_frame pd r d h res h' : h_compress pd r d h = (res, h') -> extends h h'.
+Proof. exact (h_compress_frame pd r d h res h'). Qed.
+Theorem c16_compress_fresh pd r d h x h' : h_compress pd r d h = (Ok x, h') -> (length h <= x < length h')%nat.
+Proof. exact (h_compress_fresh pd r d h x h'). Qed.
+Theorem c16_compress_refines pd r d h bpd br : deref_pdesc h pd = Some bpd -> deref_rule h r = Some br ->
+  match h_compress pd r d h with
+  | (Ok x, h') => exists v, bcompress bpd br d = Ok v /\ nth_error h' x = Some v
+  | (Exc e, _) => bcompress bpd br d = Exc e
+  | (Diverge, _) => bcompress bpd br d = Diverge
+  end.
+Proof. exact (h_compress_refines pd r d h bpd br). Qed.
+Theorem c16_decompress_frame s r d h res h' : h_decompress s r d h = (res, h') -> extends h h'.
+Proof. exact (h_decompress_frame s r d h res h'). Qed.
+Theorem c16_decompress_fresh s r d h x h' : h_decompress s r d h = (Ok x, h') -> (length h <= x < length h')%nat.
+Proof. exact (h_decompress_fresh s r d h x h'). Qed.
+Theorem c16_decompress_refines s r d h sb br : nth_error h s = Some sb -> deref_rule h r = Some br ->
+  match h_decompress s r d h with
+  | (Ok x, h') => exists v, bdecompress sb br d = Ok v /\ nth_error h' x = Some v
+  | (Exc e, _) => bdecompress sb br d = Exc e
+  | (Diverge, _) => bdecompress sb br d = Diverge
+  end.
+Proof. exact (h_decompress_refines s r d h sb br). Qed.
+Theorem c16_field_match_frame pf rf h res h' : h_field_match pf rf h = (res, h') -> extends h h'.
+Proof. exact (h_field_match_frame pf rf h res h'). Qed.
+Theorem c16_field_match_refines pf rf h bpf brf : deref_field h pf = Some bpf -> deref_rfd h rf = Some brf ->
+  fst (h_field_match pf rf h) = bfield_match bpf brf.
+Proof. exact (h_field_match_refines pf rf h bpf brf). Qed.
+Theorem c16_match_schc_packet_frame rules s h res h' : h_match_schc_packet rules s h = (res, h') -> extends h h'.
+Proof. exact (h_match_schc_packet_frame rules s h res h'). Qed.
+
 (* ---- (II) values ------------------------------------------------------------------------------- *)
 Theorem c16_shift_inplace_irrelevant b s : canon b -> b_shift b s true = b_shift b s false.
 Proof. exact (shift_inplace_irrelevant b s). Qed.
@@ -98,6 +134,15 @@ Print Assumptions c16_add_refines.
 Print Assumptions c16_setitem_refines.
 Print Assumptions c16_value_refines.
 Print Assumptions c16_chunks_refines.
+Print Assumptions c16_compress_frame.
+Print Assumptions c16_compress_fresh.
+Print Assumptions c16_compress_refines.
+Print Assumptions c16_decompress_frame.
+Print Assumptions c16_decompress_fresh.
+Print Assumptions c16_decompress_refines.
+Print Assumptions c16_field_match_frame.
+Print Assumptions c16_field_match_refines.
+Print Assumptions c16_match_schc_packet_frame.
 Print Assumptions c16_shift_inplace_irrelevant.
 Print Assumptions c16_pad_inplace_irrelevant.
 Print Assumptions c16_copy_identity.
